@@ -22,14 +22,17 @@ RULE = ("Enumeration: every string of length <= 3 (quick) / <= 4 (thorough) over
         "continuations, directly through combine_modules and (total length <= 3 / <= 4, reverse strand <= 3) through "
         "generate_domains; through generate_domains also every head | tail fragment pair (cut templates, 16 x 19 "
         "head/tail lists, all pairs of single symbols) with a gene in between that has results but no modules "
-        "(docking/COM domains only, ab-motif hits only, both), on +++ and ---. "
+        "(docking/COM domains only, ab-motif hits only, both), on +++ and ---, and every fragment pair whose upstream "
+        "gene also holds the tail's first 1-2 profiles at the tail's protein coordinates (different hits: scores "
+        "differ per gene). "
         "Random: Hypothesis strings of length 0-14 over all 60 profile names with KS subtypes (none, the five "
         "ksdomains.hmm names, a nested transATor name, two ambiguous internal hits), start positions increasing "
         "with equal-start ties and shuffled input order as classes; a mixture of uniform strings, strings made of "
         "mutated module templates, and for gene pairs / chains of 2-4 genes a module template cut in two at a random "
         "point (head | tail, optional lone KR after the tail) so that head/tail pairs are mergeable by "
         "construction; chains optionally get a module-less gene (docking/COM-only or motif-only) between a head gene "
-        "and a tail gene. A case is non-trivial when the gene has >= 2 modules or a module with two carrier proteins "
+        "and a tail gene, and in two chains of five a gene repeats the first 1-3 (profile, start, end) of the gene "
+        "downstream of it. A case is non-trivial when the gene has >= 2 modules or a module with two carrier proteins "
         "(look-ahead case), or - for pairs - a merge is attempted (same strand, both genes have modules, head "
         "incomplete), or - through generate_domains - a multi-gene module or >= 2 modules result; distinct = sha1 "
         "of the canonical spec (enumerated cases are distinct by construction).")
@@ -329,13 +332,15 @@ def layout_problems(comps: list) -> list:
 
 # --------------------------------------------------------------------------- real objects
 
-def _hmm(dom: dict, index: int):
+def _hmm(dom: dict, index: int, gene_index: int = 0):
+    """ scores differ between the domains of a gene and between genes (as real hits do), so two hits of the same
+        profile at the same protein coordinates in neighbouring genes are still different hits """
     from antismash.common.hmmscan_refinement import HMMResult
 
     def inner(hit: dict):
         return HMMResult(hit["id"], dom["s"], dom["e"], 1e-20, 100.0,
                          internal_hits=[inner(sub) for sub in hit.get("in") or []])
-    return HMMResult(dom["id"], dom["s"], dom["e"], 1e-10, 50.0 + index,
+    return HMMResult(dom["id"], dom["s"], dom["e"], 10.0 ** -(10 + gene_index), 50.0 + index + 17 * gene_index,
                      internal_hits=[inner(sub) for sub in dom.get("in") or []])
 
 
@@ -659,7 +664,7 @@ def check_pipeline(spec: dict) -> dict:
     keys = {}
     for index, gene in enumerate(genes):
         if gene["doms"]:
-            hits[gene["name"]] = [_hmm(dom, i) for i, dom in enumerate(gene["doms"])]
+            hits[gene["name"]] = [_hmm(dom, i, index) for i, dom in enumerate(gene["doms"])]
             keys.update({id(dom): [index, i] for i, dom in enumerate(hits[gene["name"]])})
     motifs = {}
     for gene in genes:
@@ -729,14 +734,31 @@ def check_pipeline(spec: dict) -> dict:
     # the saved form of the whole result, reloaded into an identical fresh record
     with code_under_test("pipeline_total"):
         saved = json.loads(json.dumps(results.to_json()))
+    fresh = _pipeline_record(spec)
     try:
-        again = di.NRPSPKSDomains.from_json(json.loads(json.dumps(saved)), _pipeline_record(spec))
+        again = di.NRPSPKSDomains.from_json(json.loads(json.dumps(saved)), fresh)
         resaved = json.loads(json.dumps(again.to_json()))
     except Exception as err:  # pylint: disable=broad-except
         raise Violation("reload_refused", {"where": "NRPSPKSDomains", "exception": type(err).__name__,
                                            "message": str(err)[:300]}) from err
+    if again is None:
+        raise Violation("reload_refused", {"where": "NRPSPKSDomains", "message": "from_json returned None"})
     if resaved != saved:
-        raise Violation("reload_json", {"where": "NRPSPKSDomains"})
+        differing = sorted(name for name in saved["cds_results"]
+                           if resaved.get("cds_results", {}).get(name) != saved["cds_results"][name])
+        raise Violation("reload_json", {"where": "NRPSPKSDomains", "genes": differing})
+    # component by component: same gene, same hit (profile, coordinates, scores, subtypes)
+    reloaded = {cds.get_name(): cds_result for cds, cds_result in again.cds_results.items()}
+    for cds, cds_result in results.cds_results.items():
+        other = reloaded.get(cds.get_name())
+        if other is None or len(other.modules) != len(cds_result.modules) \
+                or other.domain_hmms != cds_result.domain_hmms or other.motif_hmms != cds_result.motif_hmms:
+            raise Violation("reload_differs", {"where": "NRPSPKSDomains", "gene": cds.get_name()})
+        for module, twin in zip(cds_result.modules, other.modules):
+            if [(c.locus, c.domain) for c in module.components] != [(c.locus, c.domain) for c in twin.components] \
+                    or _flags(module) != _flags(twin):
+                raise Violation("reload_differs", {"where": "NRPSPKSDomains", "gene": cds.get_name(),
+                                                   "module": _describe(module), "reloaded": _describe(twin)})
     # module features in the record: one per module, same flags
     with code_under_test("pipeline_total"):
         results.add_to_record(record)
@@ -759,6 +781,22 @@ def check_pipeline(spec: dict) -> dict:
                     feature.is_iterative()) != (module.is_complete(), module.is_starter_module(),
                                                 module.is_termination_module(), module.is_iterative()):
                 raise Violation("pipeline_feature_flags", {"module": _describe(module)})
+    # the reloaded results give the same module features in the fresh record
+    try:
+        again.add_to_record(fresh)
+        fresh_features = list(fresh.get_modules())
+    except Exception as err:  # pylint: disable=broad-except
+        raise Violation("reload_refused", {"where": "add_to_record of the reloaded NRPSPKSDomains",
+                                           "exception": type(err).__name__, "message": str(err)[:300]}) from err
+
+    def feature_summary(feature) -> list:
+        return [[dom.domain_id for dom in feature.domains], str(feature.location), str(feature.module_type),
+                feature.is_complete(), feature.is_starter_module(), feature.is_final_module(),
+                feature.is_iterative(), list(feature.parent_cds_names)]
+    if [feature_summary(f) for f in fresh_features] != [feature_summary(f) for f in features]:
+        raise Violation("reload_differs", {"where": "module features of the reloaded NRPSPKSDomains",
+                                           "original": [feature_summary(f) for f in features],
+                                           "reloaded": [feature_summary(f) for f in fresh_features]})
     # the module features survive their own saved (Biopython feature) form
     from antismash.common.secmet.features import Module as ModuleFeature
     for feature in features:
@@ -787,6 +825,21 @@ def check_pipeline(spec: dict) -> dict:
                "strands_" + "".join("+" if s == 1 else "-" for s in spec["strands"])]
     if any(not gene["doms"] and not gene.get("motifs") for gene in genes):
         classes.append("gene_without_hits")
+    sites = [{(dom["id"], dom["s"], dom["e"]) for dom in gene["doms"]} for gene in genes]
+    if any(one & two for one, two in zip(sites, sites[1:])):
+        classes.append("neighbours_share_profile_and_coordinates")
+    for cds_result in results.cds_results.values():
+        for module in cds_result.modules:
+            loci = {comp.locus for comp in module.components}
+            if len(loci) > 1 and any(
+                    (comp.domain.hit_id, comp.domain.query_start, comp.domain.query_end) in sites[index]
+                    for comp in module.components for index, gene in enumerate(genes)
+                    if gene["name"] in loci and gene["name"] != comp.locus):
+                classes.append("multi_gene_module_component_coincides_with_other_gene")
+                break
+        else:
+            continue
+        break
     for index in range(1, len(genes) - 1):
         # a gene with results of its own but no modules, between two genes that have modules
         gene = genes[index]
@@ -966,10 +1019,23 @@ def enum_pipeline(thorough: bool):
                            "strands": [1, 1, 1], "kind": "cut"}
                     yield {"genes": [tokens_gene(("PCP",), "g0"), tokens_gene(down, "g1"), tokens_gene(up, "g2")],
                            "strands": [-1, -1, -1], "kind": "cut"}
-        # a gene with results of its own but no modules (docking/COM domains only, ab-motifs only) between a
-        # head gene and a tail gene: the outer genes are not adjacent
         fragments = [(tuple(t[:cut]), tuple(t[cut:])) for t in FULL_TEMPLATES for cut in range(1, len(t))]
         fragments += [(head, tail) for head in HEADS for tail in TAILS]
+        # the upstream gene also holds, at the same protein coordinates, the same profiles the tail starts with
+        # (tokens_gene puts the i-th domain of every gene at the same place): same profile + coordinates in
+        # neighbouring genes, different hits
+        done = set()
+        for head, tail in fragments:
+            for echo in range(1, min(2, len(tail)) + 1):
+                up = tuple(tail[:echo]) + tuple(head)
+                if (up, tail) in done:
+                    continue
+                done.add((up, tail))
+                yield {"genes": [tokens_gene(up, "g0"), tokens_gene(tail, "g1")], "strands": [1, 1], "kind": "echo"}
+                yield {"genes": [tokens_gene(tail, "g0"), tokens_gene(up, "g1")], "strands": [-1, -1],
+                       "kind": "echo"}
+        # a gene with results of its own but no modules (docking/COM domains only, ab-motifs only) between a
+        # head gene and a tail gene: the outer genes are not adjacent
         fragments += [((a,), (b,)) for a in PAIR_SYMBOLS for b in PAIR_SYMBOLS]
         done = set()
         for up, down in fragments:
@@ -1227,6 +1293,18 @@ def pipeline_specs(draw):
         if motifs.get(position):
             gene["motifs"] = motifs[position]
         genes.append(gene)
+    # in two chains of five one gene also carries, in front of its own domains, copies (same profile, same protein
+    # coordinates) of the first domains of the gene downstream of it: equal sites in neighbouring genes
+    if draw(st.integers(0, 4)) in (1, 3):
+        position = min(draw(st.sampled_from([0, 0, 0, 1, 2])), count - 2)
+        upstream, downstream = genes[position], genes[position + 1]
+        if upstream["doms"] and downstream["doms"]:
+            copies = [dict(dom) for dom in downstream["doms"][:draw(st.integers(1, 3))]]
+            shift = copies[-1]["e"] + draw(st.integers(1, 40)) - upstream["doms"][0]["s"]
+            shift = max(shift, copies[-1]["s"] + 1 - upstream["doms"][0]["s"])
+            upstream["doms"] = copies + [dict(dom, s=dom["s"] + shift, e=dom["e"] + shift)
+                                         for dom in upstream["doms"]]
+            kind += "+echo"
     if strand == -1:
         genes.reverse()
     return {"genes": genes, "strands": strands, "kind": kind}
